@@ -246,7 +246,28 @@ def rand_name(rnd):
     return list((b"@" if r < 0.45 else b"/") + body)
 
 
+def dup_input(rnd):
+    """One process whose descriptors are copies of few sockets (an inetd-style service: the same
+    socket as stdin and stdout) next to sockets it holds once; asked about itself."""
+    pid, idle = rnd.randrange(20, 60), 77
+    socks = []
+    for _ in range(rnd.choice([2, 3, 4])):
+        if rnd.random() < 0.75:
+            socks.append({"fam": "unix", "type": rnd.choice(["stream", "dgram"]), "l": ["-", 0], "r": ["-", 0],
+                          "st": "-", "path": rand_name(rnd)})
+        else:
+            fam = rnd.choice(["inet4", "inet6"])
+            socks.append({"fam": fam, "type": "dgram", "l": [rand_addr(rnd, fam), 53], "r": [rand_addr(rnd, fam), 0],
+                          "st": "CLOSE", "path": []})
+    fds = rnd.sample([0, 1, 2, 3, 4, 5, 6, 7, 8, 63], len(socks) + rnd.choice([1, 2, 3]))
+    hold = [[pid, fd, k + 1] for k, fd in enumerate(fds[:len(socks)])]
+    hold += [[pid, fd, rnd.randrange(1, len(socks) + 1)] for fd in fds[len(socks):]]
+    return {"socks": socks, "hold": hold, "kind": rnd.choice(["unix", "all", "all", "inet", "udp"]), "who": pid}, idle
+
+
 def rand_input(rnd):
+    if rnd.random() < 0.12:
+        return dup_input(rnd)
     pids = rnd.sample(range(20, 60), rnd.choice([1, 2, 2, 3, 4]))
     idle = 77
     socks = []
